@@ -1390,7 +1390,7 @@ func TestVerifC20(t *testing.T) {
 	rep.Assumptions = []string{
 		"testing/synctest quiescence: after every event all goroutines of the instance are durably blocked, so at every select in Subscribe at most one case is ready (except header+stop, which is forced through the header case by handing the header over before stopping)",
 		"the header feed is an unbuffered channel as in nodebuilder/header.Service.Subscribe; a header is handed over only when the subscription is waiting for one (a header waiting while a retrieval runs is equivalent to handing it over when the retrieval ends, except together with service stop = event hdrstop)",
-		"a retrieval failure is any non-nil error of the share getter or header getter, including errors wrapping shwap.ErrNotFound (block data not found); an absent namespace is reported by getters as empty data without error",
+		"a retrieval failure is any non-nil error of the share getter or header getter, including errors wrapping shwap.ErrNotFound (block data not found) and errors that wrap context.DeadlineExceeded / context.Canceled coming from an inner context of the getter while the caller's own context is alive; an absent namespace is reported by getters as empty data without error",
 		"feed close while a retrieval runs is judged leniently: the stream must close once that retrieval has returned (retries are not counted)",
 		"'promptly' = after cancel / service stop at most one further retrieval attempt starts, and the stream is closed in the first quiescent state in which no retrieval is running",
 		"a subscription (or GetAll) that owes a result, has no collaborator call of its own in flight, while another retrieval of the same height and namespace is in flight, is treated as retrieving (an implementation may coalesce identical retrievals); it is judged as soon as that retrieval is answered",
